@@ -101,8 +101,11 @@ class ExcelInPython:
             return date
 
         try:
-            return date_parser.parse(date)
-        except (date_parser.ParserError, TypeError):
+            # parts a text leaves out are taken from the first of January of the current year, not from today ("Jan 2024" is the first
+            # of that month on every day of the year)
+            return date_parser.parse(date, default=datetime.datetime(datetime.date.today().year, 1, 1))
+        except (date_parser.ParserError, TypeError, ValueError, OverflowError):
+            # a text that merely contains digits (an account number of 20 digits) is no date
             return None
 
     def _by_operator(self, operator: str, left_operand: str | int | float | datetime.datetime, right_operand: str | int | float | datetime.datetime) -> bool:
